@@ -361,9 +361,10 @@ def gen(item, rng, tier):
             slots.append({'t': 'ldr', 'w': T.ldst_imm('ldr', rd, 6, off), 'rd': rd, 'addr': P.DBASE + 4 * off})
         elif t == 'b':
             # a branch as last slot, skipping the 16-bit marker that follows the block: B (T2), B.W (T4), BL, BX Rm, BLX Rm
-            form = rng.choice(['b', 'b', 'bw', 'bl', 'bx', 'blx', 'movpc', 'ldrpc', 'tbb', 'tbh'] + ([] if (sp_loaded or stack_used) else ['poppc', 'poppc', 'poppcw']))
+            form = rng.choice(['b', 'b', 'bw', 'bl', 'bx', 'blx', 'movpc', 'ldrpc', 'tbb', 'tbh', 'ldmpc', 'ldmpcw'] + ([] if (sp_loaded or stack_used) else ['poppc', 'poppc', 'poppcw']))
             w = {'b': T.b(4), 'bw': 0xF000B801, 'bl': 0xF000F801, 'bx': T.bx(9), 'blx': 0x4780 | 9 << 3, 'movpc': 0x46CF,
-                 'ldrpc': 0xF8D6F0FC, 'tbb': 0xE8D6F00A, 'tbh': 0xE8D6F01B, 'poppc': 0xBD10, 'poppcw': 0xE8BD8010}[form]           # POP {r4,pc}: the compiler's conditional return          # LDR pc,[r6,#0xFC]: the word there is the target (Thumb bit set)
+                 'ldrpc': 0xF8D6F0FC, 'tbb': 0xE8D6F00A, 'tbh': 0xE8D6F01B, 'poppc': 0xBD10, 'poppcw': 0xE8BD8010,
+                 'ldmpc': 0xE89B8010, 'ldmpcw': 0xE8BB8010}[form]           # LDMIA.W r11{!}, {r4, pc}: r11 points at a prepared frame in the data page           # POP {r4,pc}: the compiler's conditional return          # LDR pc,[r6,#0xFC]: the word there is the target (Thumb bit set)
             slots.append({'t': 'b', 'w': w, 'form': form, 'name': 'branch_' + form})
     # optional prologue / epilogue: the very same MOVS halfwords that sit in the block are also executed outside it, where they
     # must set N/Z (and inside they must not) — decode-time context must not leak from one execution to the next
@@ -423,6 +424,9 @@ def gen(item, rng, tier):
         G.set_data(devices[2], 0x4FC, (tgt | 1).to_bytes(4, bo))
         # TBB [r6, r10] / TBH [r6, r11, LSL #1]: r10 = 0xF8, r11 = 0x7A (table entries at DBASE+0xF8 / +0xF4), entry 1 = skip the 16-bit marker
         st['R']['R10usr'], st['R']['R11usr'] = 0xF8, 0x7A
+        if slots[-1].get('form') in ('ldmpc', 'ldmpcw'):
+            st['R']['R11usr'] = P.DBASE + 0xE8
+            G.set_data(devices[2], 0x4E8, (0x4444).to_bytes(4, bo) + (tgt | 1).to_bytes(4, bo))
         G.set_data(devices[2], 0x4F8, bytes([1]))
         G.set_data(devices[2], 0x4F4, (1).to_bytes(2, bo))
         if slots[-1].get('form') in ('poppc', 'poppcw'):
